@@ -273,6 +273,7 @@ func (w *World) drawTargetPods(rt *rapid.T, g int) (Action, string) {
 		}
 		if len(all) > 0 && rapid.IntRange(0, 3).Draw(rt, "bound?") > 0 {
 			ps.Node = rapid.SampledFrom(all).Draw(rt, "podNode")
+			ps.BoundPending = rapid.IntRange(0, 3).Draw(rt, "boundPending") == 0
 		}
 		pods = append(pods, ps)
 	}
@@ -317,7 +318,7 @@ func (w *World) timeTargets() []time.Duration {
 }
 
 // TaintValueClasses are the external escalator-taint value classes.
-var TaintValueClasses = []string{"past", "longpast", "future", "garbage", "empty", "negative", "huge", "float", "spaces"}
+var TaintValueClasses = []string{"past", "longpast", "future", "garbage", "empty", "negative", "huge", "float", "spaces", "softEdge", "hardEdge", "softEdge", "hardEdge"}
 
 // DrawAction draws one environment action (or a scan) for the current state.
 func (w *World) DrawAction(rt *rapid.T, p *Profile) (Action, string) {
@@ -374,6 +375,7 @@ func (w *World) DrawAction(rt *rapid.T, p *Profile) (Action, string) {
 			}
 			if len(nodes) > 0 && rapid.Bool().Draw(rt, "bound") {
 				ps.Node = rapid.SampledFrom(nodes).Draw(rt, "podNode")
+				ps.BoundPending = rapid.IntRange(0, 3).Draw(rt, "boundPending") == 0
 			}
 			pods = append(pods, ps)
 		}
@@ -434,6 +436,15 @@ func (w *World) DrawAction(rt *rapid.T, p *Profile) (Action, string) {
 				val = fmt.Sprint(-int64(rapid.IntRange(1, 1_000_000).Draw(rt, "neg")))
 			case "huge":
 				val = rapid.SampledFrom([]string{"4611686018427387904", "9223372036854775807", "9223372036854775808", "-9223372036854775808", "99999999999999999999"}).Draw(rt, "huge")
+			case "softEdge", "hardEdge": // tainted exactly one grace period ago, +-1 s
+				d := time.Duration(0)
+				if gi := w.GroupOfNode(w.K.Nodes[n]); gi >= 0 {
+					d = w.Cfg.Groups[gi].Opts.SoftDeleteGracePeriodDuration()
+					if class == "hardEdge" {
+						d = w.Cfg.Groups[gi].Opts.HardDeleteGracePeriodDuration()
+					}
+				}
+				val = fmt.Sprint(now - int64(d/time.Second) + int64(rapid.IntRange(-1, 1).Draw(rt, "edgeOffset")))
 			case "float":
 				val = fmt.Sprintf("%d.5", now-100)
 			default:
